@@ -1231,6 +1231,83 @@ def differs(key):
     return any(t in key for t in ("far", ":flip", ":eqflip", ":qtype", "lit-contra", "leaf-after-compound", "compound-after-leaf"))
 
 
+# ---------------------------------------------------------------------------------------------------------------
+# negated numeric comparisons (not (<op> a b)): legal PDDL (:negative-preconditions + numeric fluents), outside the fragment
+# the library represents (it refuses them while reading the inner node as a literal).  "faithful or exception": an answer
+# must be the NEGATION of the comparison - not the mirrored comparison (<op> b a), which differs from the negation exactly
+# where both sides are equal (within EPSILON), not the comparison itself, not 'true'.  One kind per operator x context; the
+# probe states (hints 'fluent_states') put the two sides at: equal, less than EPSILON apart (both ways), clearly apart
+# (both ways), about 2 EPSILON apart (both ways); sibling literals of a nested and / or are neutral in every state.
+NEG_CMP_OPS = ["<=", ">=", "<", ">", "="]
+NEG_CMP_CONTEXTS = ["pre-root", "pre-nested-and", "pre-nested-or", "forall-body", "when-ante", "when-ante-nested",
+                    "forall-when-ante"]
+
+
+def _num(c):
+    return "%g" % c
+
+
+def neg_cmp_planter(cop, ctx):
+    def planter(rng, w, a):
+        ensure_aux(w)
+        scope = list(a["params"])
+        qv = qty = None
+        if ctx in ("forall-body", "forall-when-ante"):
+            qv, qty = ("?qn" if ctx == "forall-body" else "?un"), rng.choice(w.all_types())
+            scope = scope + [(qv, qty)]
+        ts = _terms(w, scope)
+        t = qv or (rng.choice(ts) if ts else None)
+        c = rng.choice([2.0, 0.5, -1.0, 0.0, 10.25, 3.0])
+        deltas = [0.0, EPS / 2, -EPS / 2, 1.0, -1.0, 2 * EPS, -2 * EPS]       # lhs - rhs
+        kinds = ["fl-num", "num-fl"] + (["fu-fz", "fz-fu", "arith-fz", "fu-arith"] if t else [])
+        kind = rng.choice(kinds)
+        fl = ["fu", t] if t and (qv or rng.random() < 0.7) else ["fz"]
+        if kind == "fl-num":
+            lhs, rhs, vals = fl, _num(c), [{"fz": c + d, "fu": c + d} for d in deltas]
+        elif kind == "num-fl":
+            lhs, rhs, vals = _num(c), fl, [{"fz": c - d, "fu": c - d} for d in deltas]
+        elif kind == "fu-fz":
+            lhs, rhs, vals = ["fu", t], ["fz"], [{"fz": c, "fu": c + d} for d in deltas]
+        elif kind == "fz-fu":
+            lhs, rhs, vals = ["fz"], ["fu", t], [{"fz": c + d, "fu": c} for d in deltas]
+        elif kind == "arith-fz":
+            lhs, rhs, vals = ["+", ["fu", t], "1"], ["fz"], [{"fz": c + 1, "fu": c + d} for d in deltas]
+        else:
+            lhs, rhs, vals = ["fu", t], ["-", ["fz"], "0.5"], [{"fz": c + 0.5, "fu": c + d} for d in deltas]
+        x = ["not", [cop, lhs, rhs]]
+        regime = None
+        keep = _and_body(a["pre"]) if rng.random() < 0.25 else ["and"]
+        if ctx == "pre-root":
+            a["pre"] = keep + [x]
+        elif ctx in ("pre-nested-and", "pre-nested-or", "when-ante-nested"):
+            sop = rng.choice(["and", "or"]) if ctx == "when-ante-nested" else ctx[11:]
+            lit = _zlit(rng, w, scope, negate=0.0)
+            regime = "all" if sop == "and" else "none"        # the sibling literal is neutral: the comparison decides
+            node = [sop, x, lit] if rng.random() < 0.5 else [sop, lit, x]
+            if ctx == "when-ante-nested":
+                a["pre"] = ["and"]
+                a["eff"] = a["eff"] + [["when", node, rng.choice([["pw"], ["and", ["pw"]]])]]
+            else:
+                a["pre"] = keep + [node]
+        elif ctx == "forall-body":
+            a["pre"] = keep + [["forall", [qv, "-", qty], [rng.choice(["and", "or"]), x]]]
+        elif ctx == "when-ante":
+            a["pre"] = ["and"]
+            a["eff"] = a["eff"] + [["when", x, rng.choice([["pw"], ["and", ["pw"]]])]]
+        else:
+            a["pre"] = ["and"]
+            a["eff"] = a["eff"] + [["forall", [qv, "-", qty], ["when", x, rng.choice([["pv", qv], ["and", ["pv", qv]]])]]]
+        w.probe_hints = {"fluents": {}, "fluent_states": vals, "n_states": len(vals), "facts": ["pz", "pu"], "regime": regime,
+                         "focus": a["name"], "tag": None, "need_types": [qty] if qty else []}
+        return True
+    return planter
+
+
+for _cop in NEG_CMP_OPS:
+    for _ctx in NEG_CMP_CONTEXTS:
+        PLANTERS["neg-cmp:%s:%s" % (_cop, _ctx)] = neg_cmp_planter(_cop, _ctx)
+
+
 def shape(rng, w, key, order=None):
     """applies the shape `key` to one action of w; returns the probe hints, or None when it does not fit this world"""
     global ORDER
@@ -1263,9 +1340,14 @@ def hinted_state(rng, w, objs, hints, k):
     # under which regime its literals are neutral, that regime with the first and the second telling value
     regime = hints.get("regime")
     none_all = [regime, regime] if regime else ["none", "all"]
-    if k < 2 and none_all[k] == "none":
+    per_state = hints.get("fluent_states")
+    if per_state and regime:
+        none_all = [regime] * (k + 1)       # the regime holds in every state: the fluent values alone decide
+    elif per_state:
+        none_all = none_all + ["none", "all"] * k
+    if k < len(none_all) and none_all[k] == "none":
         st["facts"] = [x for x in st["facts"] if x[0] not in named]
-    elif k < 2:
+    elif k < len(none_all):
         keep = [x for x in st["facts"] if x[0] not in named]
         st["facts"] = keep + [x for x in G.ground_atoms(w, objs, [p for p in w.preds if p[0] in named])]
     fl = []
@@ -1273,6 +1355,8 @@ def hinted_state(rng, w, objs, hints, k):
         vals = hints["fluents"].get(f)
         if vals:
             v = (vals[k] if regime and len(vals) > 1 else vals[0]) if k < 2 else rng.choice(vals)
+        if per_state and f in per_state[k % len(per_state)]:
+            v = per_state[k % len(per_state)][f]
         fl.append((f, args, v))
     st["fluents"] = fl
     cf = hints.get("const_facts")
